@@ -594,6 +594,16 @@ def _run(cell, g, fails):
             except Exception:
                 return "first-call-failed"
             stage = "ran-after-init-refusal"
+        if mode == "eval":
+            # a mean-only evaluation under the initial parameters, followed by a correct eval -> train round trip, before the parameters
+            # of the cell are written: whatever that call caches must not survive into the evaluation compared below
+            try:
+                model.eval()
+                with gpytorch.settings.skip_posterior_variances(True):
+                    model(case.X)
+            except Exception:
+                pass  # the mean-only call itself is judged at the end of the cell
+            model.train()
         nf = len(fails)
         skipped = True
         with fails.guard("set-params"):
@@ -686,6 +696,12 @@ def _run(cell, g, fails):
         if s == "Variational" and cell["dist"] == "Cholesky" and "q_u" in ref:
             with fails.guard("whitened-vs-unwhitened"):
                 _whitened_vs_unwhitened(cell, case, ref, out, fails, mode)
+        # ---- the mean-only evaluation (skip_posterior_variances) is the same mean
+        if mode == "eval":
+            with fails.guard("qf-mean-only"):
+                with gpytorch.settings.skip_posterior_variances(True):
+                    o2 = model(case.X)
+                bcheck(fails, "qf-mean-only", o2.mean, ref["mean"], tol, "mean under skip_posterior_variances != mX + Kxz Ktz^-1 (m_u - mz)")
     return stage
 
 
